@@ -198,7 +198,7 @@ func Read(f *os.File, b []byte) (int, error) {
 	}
 	fi := s.files[f]
 	if fi == nil {
-		panic(vsched.EngineError{Msg: "vsys.Read on unregistered file"})
+		return f.Read(b) // not an inotify file of the code under test (e.g. a regular file it opened itself)
 	}
 	faulted := func() *ReadFault {
 		for i := range s.ReadFaults {
